@@ -274,10 +274,10 @@ Example C08_general_loop_example :
 Proof. vm_compute. split; reflexivity. Qed.
 
 (* MEASUREMENT-CONDITIONED BLOCKS IN GENERAL (Lang/BranchProofs.v, inside the judgement `gjudge`): the statements of the two blocks
-   may be flat operations or any library gate under inv / pow(k) with closed parameters on registers, slices or bits; the
-   conditional is kept, on the same register bit or register value, with BOTH blocks unrolled ("a measured if keeps both arms") *)
+   may be flat operations, any library gate under inv / pow(k) with closed parameters on registers, slices or bits, or calls of
+   defined gates (`hcallb`); the conditional is kept, on the same register bit or register value, with BOTH blocks unrolled ("a measured if keeps both arms") *)
 Theorem C08_measured_branch_with_general_blocks check_only f env G s stm out evs :
-  Regs env s -> gates s = G -> branch_ok env G stm = Some (out, evs) ->
+  (Nat.pred gate_nesting <= f)%nat -> Regs env s -> gates s = G -> gstack s = [] -> branch_ok hcallb env G stm = Some (out, evs) ->
   exists s', visit_stmt check_only [] (S (S f)) stm s = Ok ((if check_only then [] else out), s') /\ DE s s' /\ Dstep s s' evs.
-Proof. exact (branch_ok_fix check_only f env G s stm out evs). Qed.
+Proof. exact (branch_ok_fix hcallb (Nat.pred gate_nesting) hcallb_fix check_only f env G s stm out evs). Qed.
 Print Assumptions C08_measured_branch_with_general_blocks.
